@@ -794,7 +794,7 @@ def statements(rng, tier):
                     v = list(alias_variants(shape, T)); tree, tgt, tag = rng.choice(v)
                     add("assign", tgt=(T, tgt), e=tree, tags=("d2", "oppair", "alias:" + tag))
     # ---- depth 3 and 4: sampled (thorough: many more)
-    for d, n in ((3, 1500 if thorough else 260), (4, 700 if thorough else 120)):
+    for d, n in ((3, 2500 if thorough else 500), (4, 1200 if thorough else 250)):
         k = 0
         while k < n:
             T = rng.choice(["z", "z", "q"])
@@ -887,3 +887,399 @@ def statements(rng, tier):
     for tty in ("z", "q", "f"):
         add("init", ty=tty, e=Bin("mul", Var("f", 0), Var("f", 1)), tags=("mpf", "init")); add("init", ty="f", e=Bin("add", Var(tty, 0), Var(tty, 1)), tags=("mpf", "init"))
     return S
+
+# ---------------------------------------------------------------- conversions, constructors, get_str, stream I/O
+IO_BASE = 1000000
+IO_CODE = r'''
+static long sid = IO_BASE_ID; static long only = -1;
+static bool want() { return only < 0 || only == sid; }
+static void desc(const std::string &d) {
+  if (!want()) return;
+  printf("desc %ld ", sid);
+  for (size_t i = 0; i < d.size(); i++) { unsigned char c = d[i]; if (c < 32 || c > 126) printf("\\x%02x", c); else putchar(c); }
+  printf("\n");
+}
+static void outs(const char *w, int k, const std::string &s) { printf("%s %ld %d", w, sid, k); pr_bytes(s); printf("\n"); }
+struct Fl { int base, showbase, showpos, upper, adj, width; char fill; };
+static void apply(std::ios &o, const Fl &f) {
+  o.setf(f.base == 16 ? std::ios::hex : f.base == 8 ? std::ios::oct : std::ios::dec, std::ios::basefield);
+  if (f.showbase) o.setf(std::ios::showbase); if (f.showpos) o.setf(std::ios::showpos); if (f.upper) o.setf(std::ios::uppercase);
+  if (f.adj == 1) o.setf(std::ios::left, std::ios::adjustfield); else if (f.adj == 2) o.setf(std::ios::right, std::ios::adjustfield);
+  else if (f.adj == 3) o.setf(std::ios::internal, std::ios::adjustfield);
+  o.width(f.width); o.fill(f.fill);
+}
+static std::string fdesc(const Fl &f) {
+  char b[200]; snprintf(b, sizeof b, "base=%d showbase=%d showpos=%d uppercase=%d adjust=%s width=%d fill='%c'", f.base, f.showbase, f.showpos, f.upper,
+    f.adj == 0 ? "none" : f.adj == 1 ? "left" : f.adj == 2 ? "right" : "internal", f.width, f.fill); return b;
+}
+/* reference: [sign][base prefix][digits of mpz_get_str], padded with the fill character to the width */
+static void ref_int(std::string &sign, std::string &body, mpz_srcptr z, const Fl &f) {
+  char *s = mpz_get_str(NULL, f.base == 16 && f.upper ? -16 : f.base, z);
+  const char *dg = s; sign = "";
+  if (*dg == '-') { sign = "-"; dg++; } else if (f.showpos) sign = "+";
+  body = "";
+  if (f.showbase && f.base == 16) body = f.upper ? "0X" : "0x";
+  if (f.showbase && f.base == 8 && mpz_sgn(z) != 0) body = "0";
+  body += dg; free(s);
+}
+static std::string pad(const std::string &pre, const std::string &rest, const Fl &f) {
+  size_t n = pre.size() + rest.size(); std::string p(n < (size_t) f.width ? f.width - n : 0, f.fill);
+  if (f.adj == 1) return pre + rest + p;
+  if (f.adj == 3) return pre + p + rest;
+  return p + pre + rest;
+}
+static std::string ref_z(mpz_srcptr z, const Fl &f) {
+  std::string sg, b; ref_int(sg, b, z, f);
+  /* internal: the padding goes after the sign and the base prefix (GMP's doprnt convention: also after the octal "0",
+     where libstdc++ would pad before it; there is no C-level counterpart with a fill character to compare with) */
+  if (f.showbase && f.base == 16) return pad(sg + b.substr(0, 2), b.substr(2), f);
+  if (f.showbase && f.base == 8 && mpz_sgn(z) != 0) return pad(sg + "0", b.substr(1), f);
+  return pad(sg, b, f);
+}
+static std::string ref_q(mpq_srcptr q, const Fl &f) {
+  std::string sg, b; ref_int(sg, b, mpq_numref(q), f);
+  std::string pre = sg, rest = b;
+  if (f.showbase && f.base == 16) { pre = sg + b.substr(0, 2); rest = b.substr(2); }
+  if (f.showbase && f.base == 8 && mpz_sgn(mpq_numref(q)) != 0) { pre = sg + "0"; rest = b.substr(1); }
+  if (mpz_cmp_ui(mpq_denref(q), 1) != 0) { std::string s2, b2; Fl g = f; g.showpos = 0; ref_int(s2, b2, mpq_denref(q), g); rest += "/" + b2; }
+  return pad(pre, rest, f);
+}
+static void io_ostream(const VS *vs, int nvs, int full) {
+  static const int bases[] = {10, 16, 8}, widths[] = {0, 3, 24}; static const char fills[] = {' ', '*', '0'};
+  for (int bi = 0; bi < 3; bi++) for (int sb = 0; sb < 2; sb++) for (int sp = 0; sp < 2; sp++) for (int up = 0; up < 2; up++)
+  for (int adj = 0; adj < 4; adj++) for (int wi = 0; wi < 3; wi++) for (int fi = 0; fi < 3; fi++) {
+    if (wi == 0 && (fi > 0 || adj > 1)) continue;
+    Fl f = { bases[bi], sb, sp, up, adj, widths[wi], fills[fi] };
+    for (int ty = 0; ty < 3; ty++) {     /* 0: mpz_class, 1: mpq_class, 2: an mpz expression */
+      if (!full && ty == 2 && (adj != 3 || wi != 2)) continue;
+      desc(std::string(ty == 0 ? "os << Z[0]; " : ty == 1 ? "os << Q[0]; " : "os << (Z[0] * Z[1] - Z[2]); ") + fdesc(f));
+      if (want()) for (int k = 0; k < nvs; k++) {
+        setenv_vs(&vs[k]);
+        std::ostringstream os; apply(os, f);
+        if (ty == 0) os << Z[0]; else if (ty == 1) os << Q[0]; else os << (Z[0] * Z[1] - Z[2]);
+        std::string r = os.str(); if (os.width() != 0) r += "<width not reset>"; if (!os.good()) r += "<stream not good>";
+        outs("cxx", k, r);
+        if (ty == 2) { mpz_mul(TZ[1], Zc[0], Zc[1]); mpz_sub(TZ[2], TZ[1], Zc[2]); }
+        outs("cref", k, ty == 0 ? ref_z(Zc[0], f) : ty == 1 ? ref_q(Qc[0], f) : ref_z(TZ[2], f));
+      }
+      sid++;
+    }
+  }
+}
+static void io_ostream_f(const VS *vs, int nvs) {
+  /* mpf: the C-level counterpart is gmp_asprintf with the equivalent conversion */
+  static const int precs[] = {1, 3, 10, 30}, widths[] = {0, 28};
+  for (int ff = 0; ff < 3; ff++) for (int pi = 0; pi < 4; pi++) for (int spt = 0; spt < 2; spt++) for (int sp = 0; sp < 2; sp++) for (int up = 0; up < 2; up++)
+  for (int wi = 0; wi < 2; wi++) for (int adj = 1; adj < 3; adj++) {
+    if (wi == 0 && adj == 2) continue;
+    char fmt[40]; snprintf(fmt, sizeof fmt, "%%%s%s%s%s.*F%c", spt ? "#" : "", sp ? "+" : "", adj == 1 ? "-" : "", wi ? "28" : "", ff == 0 ? (up ? 'G' : 'g') : ff == 1 ? 'f' : (up ? 'E' : 'e'));
+    desc(std::string("os << F[0]; format ") + fmt + " precision " + std::to_string(precs[pi]));
+    if (want()) for (int k = 0; k < nvs; k++) {
+      setenv_vs(&vs[k]);
+      std::ostringstream os; if (ff == 1) os.setf(std::ios::fixed, std::ios::floatfield); if (ff == 2) os.setf(std::ios::scientific, std::ios::floatfield);
+      if (spt) os.setf(std::ios::showpoint); if (sp) os.setf(std::ios::showpos); if (up) os.setf(std::ios::uppercase);
+      os.setf(adj == 1 ? std::ios::left : std::ios::right, std::ios::adjustfield); os.width(widths[wi]); os.precision(precs[pi]);
+      os << F[0]; outs("cxx", k, os.str());
+      char *r = NULL; gmp_asprintf(&r, fmt, precs[pi], Fc[0]); outs("cref", k, r); free(r);
+    }
+    sid++;
+  }
+}
+static void io_getstr(const VS *vs, int nvs) {
+  for (int b = -36; b <= 62; b++) {
+    if (b > -2 && b < 2) continue; if (b > 36 && b != 62) continue;
+    desc("Z[0].get_str(" + std::to_string(b) + ")");
+    if (want()) for (int k = 0; k < nvs; k++) { setenv_vs(&vs[k]); outs("cxx", k, Z[0].get_str(b)); char *s = mpz_get_str(NULL, b, Zc[0]); outs("cref", k, s); free(s); }
+    sid++;
+    desc("Q[0].get_str(" + std::to_string(b) + ")");
+    if (want()) for (int k = 0; k < nvs; k++) { setenv_vs(&vs[k]); outs("cxx", k, Q[0].get_str(b)); char *s = mpq_get_str(NULL, b, Qc[0]); outs("cref", k, s); free(s); }
+    sid++;
+    if (b >= 2) for (int nd = 0; nd <= 20; nd += 10) {
+      desc("F[0].get_str(exp, " + std::to_string(b) + ", " + std::to_string(nd) + ")");
+      if (want()) for (int k = 0; k < nvs; k++) {
+        setenv_vs(&vs[k]); mp_exp_t e1 = 0, e2 = 0; std::string a = F[0].get_str(e1, b, nd); char *s = mpf_get_str(NULL, &e2, b, nd, Fc[0]);
+        outs("cxx", k, a + "@" + std::to_string((long) e1)); outs("cref", k, std::string(s) + "@" + std::to_string((long) e2)); free(s);
+      }
+      sid++;
+    }
+  }
+  desc("Z[0].get_str()  (default base 10)");
+  if (want()) for (int k = 0; k < nvs; k++) { setenv_vs(&vs[k]); outs("cxx", k, Z[0].get_str()); char *s = mpz_get_str(NULL, 10, Zc[0]); outs("cref", k, s); free(s); }
+  sid++;
+}
+struct StrCase { const char *s; int base; };
+template <class F> static std::string guard_inv(F f) { try { return f(); } catch (std::invalid_argument &e) { return std::string("!invalid_argument:") + e.what(); } }
+static std::string zhex(mpz_srcptr z) { char *s = mpz_get_str(NULL, 16, z); std::string r = s; free(s); return r; }
+static std::string qhex(mpq_srcptr q) { return zhex(mpq_numref(q)) + " " + zhex(mpq_denref(q)); }
+static std::string fstr(mpf_srcptr f) { mp_exp_t e; char *s = mpf_get_str(NULL, &e, 16, 0, f); std::string r = std::string(s) + "@" + std::to_string((long) e) + " prec " + std::to_string((long) mpf_get_prec(f)); free(s); return r; }
+static void io_strings(const StrCase *sc, int n) {
+  for (int i = 0; i < n; i++) {
+    const char *s = sc[i].s; int b = sc[i].base; std::string d = std::string("\"") + s + "\", base " + std::to_string(b);
+    /* mpz */
+    desc("mpz_class t(" + d + ")");
+    if (want()) { outs("cxx", 0, guard_inv([&] { mpz_class t(s, b); return zhex(t.get_mpz_t()); }));
+      outs("cref", 0, mpz_set_str(TZ[0], s, b) == 0 ? zhex(TZ[0]) : "!invalid_argument:mpz_set_str"); }
+    sid++;
+    desc("mpz_class t(std::string(" + d + "))");
+    if (want()) { outs("cxx", 0, guard_inv([&] { mpz_class t(std::string(s), b); return zhex(t.get_mpz_t()); }));
+      outs("cref", 0, mpz_set_str(TZ[0], s, b) == 0 ? zhex(TZ[0]) : "!invalid_argument:mpz_set_str"); }
+    sid++;
+    desc("Z[0].set_str(" + d + ")");
+    if (want()) { mpz_set_si(Z[0].get_mpz_t(), 77); mpz_set_si(TZ[0], 77); int r1 = Z[0].set_str(s, b), r2 = mpz_set_str(TZ[0], s, b);
+      outs("cxx", 0, std::to_string(r1) + " " + (r1 == 0 ? zhex(Z[0].get_mpz_t()) : "")); outs("cref", 0, std::to_string(r2) + " " + (r2 == 0 ? zhex(TZ[0]) : "")); }
+    sid++;
+    if (b == 0) {
+      desc("Z[0] = \"" + std::string(s) + "\"");
+      if (want()) { outs("cxx", 0, guard_inv([&] { Z[0] = s; return zhex(Z[0].get_mpz_t()); })); outs("cref", 0, mpz_set_str(TZ[0], s, 0) == 0 ? zhex(TZ[0]) : "!invalid_argument:mpz_set_str"); }
+      sid++;
+      desc("Q[0] = std::string(\"" + std::string(s) + "\")");
+      if (want()) { outs("cxx", 0, guard_inv([&] { Q[0] = std::string(s); return qhex(Q[0].get_mpq_t()); })); outs("cref", 0, mpq_set_str(TQ[0], s, 0) == 0 ? qhex(TQ[0]) : "!invalid_argument:mpq_set_str"); }
+      sid++;
+    }
+    /* mpq */
+    desc("mpq_class t(" + d + ")");
+    if (want()) { outs("cxx", 0, guard_inv([&] { mpq_class t(s, b); return qhex(t.get_mpq_t()); }));
+      outs("cref", 0, mpq_set_str(TQ[0], s, b) == 0 ? qhex(TQ[0]) : "!invalid_argument:mpq_set_str"); }
+    sid++;
+    desc("Q[0].set_str(" + d + ")");
+    if (want()) { int r1 = Q[0].set_str(std::string(s), b), r2 = mpq_set_str(TQ[0], s, b);
+      outs("cxx", 0, std::to_string(r1) + " " + (r1 == 0 ? qhex(Q[0].get_mpq_t()) : "")); outs("cref", 0, std::to_string(r2) + " " + (r2 == 0 ? qhex(TQ[0]) : "")); }
+    sid++;
+    /* mpf */
+    if (b >= 0) {
+      desc("mpf_class t(" + d.substr(0, d.find(", base")) + ", 128, " + std::to_string(b) + ")");
+      if (want()) { outs("cxx", 0, guard_inv([&] { mpf_class t(s, 128, b); return fstr(t.get_mpf_t()); }));
+        mpf_set_prec(TF[0], 128); outs("cref", 0, mpf_set_str(TF[0], s, b) == 0 ? fstr(TF[0]) : "!invalid_argument:mpf_set_str"); }
+      sid++;
+    }
+  }
+}
+template <class T> static void num_case(const char *tn, T v, const char *vs) {
+  std::string d = std::string("(") + tn + ") " + vs;
+  desc("mpz_class t(" + d + "); Z[0] = " + d + ";");
+  if (want()) { mpz_class t(v); Z[0] = 5; Z[0] = v; outs("cxx", 0, zhex(t.get_mpz_t()) + " " + zhex(Z[0].get_mpz_t()));
+    if (std::numeric_limits<T>::is_integer) { if (std::numeric_limits<T>::is_signed) mpz_set_si(TZ[0], (long) v); else mpz_set_ui(TZ[0], (unsigned long) v); } else mpz_set_d(TZ[0], (double) v);
+    outs("cref", 0, zhex(TZ[0]) + " " + zhex(TZ[0])); }
+  sid++;
+  desc("mpq_class t(" + d + "); Q[0] = " + d + ";");
+  if (want()) { mpq_class t(v); Q[0] = 5; Q[0] = v; outs("cxx", 0, qhex(t.get_mpq_t()) + " " + qhex(Q[0].get_mpq_t()));
+    if (std::numeric_limits<T>::is_integer) { if (std::numeric_limits<T>::is_signed) mpq_set_si(TQ[0], (long) v, 1); else mpq_set_ui(TQ[0], (unsigned long) v, 1); } else mpq_set_d(TQ[0], (double) v);
+    outs("cref", 0, qhex(TQ[0]) + " " + qhex(TQ[0])); }
+  sid++;
+  desc("mpf_class t(" + d + "); mpf_class u(" + d + ", 192); F[0] = " + d + ";");
+  if (want()) { mpf_class t(v); mpf_class u(v, 192); F[0].set_prec(128); F[0] = v; outs("cxx", 0, fstr(t.get_mpf_t()) + " " + fstr(u.get_mpf_t()) + " " + fstr(F[0].get_mpf_t()));
+    std::string r;
+    for (int j = 0; j < 3; j++) { mpf_set_prec(TF[0], j == 0 ? mpf_get_default_prec() : j == 1 ? 192 : 128);
+      if (std::numeric_limits<T>::is_integer) { if (std::numeric_limits<T>::is_signed) mpf_set_si(TF[0], (long) v); else mpf_set_ui(TF[0], (unsigned long) v); } else mpf_set_d(TF[0], (double) v);
+      r += (j ? " " : "") + fstr(TF[0]); }
+    outs("cref", 0, r); }
+  sid++;
+}
+static void io_conv(const VS *vs, int nvs) {
+  desc("Z[0].get_si() get_ui() get_d() fits_sint_p uint sshort ushort slong ulong si ui; Q[0].get_d(); F[0].get_si() get_ui() get_d() fits_*");
+  if (want()) for (int k = 0; k < nvs; k++) {
+    setenv_vs(&vs[k]); char b[600]; double d1 = Z[0].get_d(), d2 = mpz_get_d(Zc[0]), d3 = Q[0].get_d(), d4 = mpq_get_d(Qc[0]), d5 = F[0].get_d(), d6 = mpf_get_d(Fc[0]); uint64_t u1, u2, u3, u4, u5, u6;
+    memcpy(&u1, &d1, 8); memcpy(&u2, &d2, 8); memcpy(&u3, &d3, 8); memcpy(&u4, &d4, 8); memcpy(&u5, &d5, 8); memcpy(&u6, &d6, 8);
+    snprintf(b, sizeof b, "%ld %lu %lx %d%d%d%d%d%d%d%d q %lx f %ld %lu %lx %d%d%d%d%d%d%d%d", Z[0].get_si(), Z[0].get_ui(), (unsigned long) u1, Z[0].fits_sint_p(), Z[0].fits_uint_p(), Z[0].fits_sshort_p(), Z[0].fits_ushort_p(),
+      Z[0].fits_slong_p(), Z[0].fits_ulong_p(), Z[0].fits_si_p(), Z[0].fits_ui_p(), (unsigned long) u3, F[0].get_si(), F[0].get_ui(), (unsigned long) u5, F[0].fits_sint_p(), F[0].fits_uint_p(), F[0].fits_sshort_p(), F[0].fits_ushort_p(),
+      F[0].fits_slong_p(), F[0].fits_ulong_p(), F[0].fits_si_p(), F[0].fits_ui_p());
+    outs("cxx", k, b);
+    snprintf(b, sizeof b, "%ld %lu %lx %d%d%d%d%d%d%d%d q %lx f %ld %lu %lx %d%d%d%d%d%d%d%d", mpz_get_si(Zc[0]), mpz_get_ui(Zc[0]), (unsigned long) u2, mpz_fits_sint_p(Zc[0]) != 0, mpz_fits_uint_p(Zc[0]) != 0, mpz_fits_sshort_p(Zc[0]) != 0, mpz_fits_ushort_p(Zc[0]) != 0,
+      mpz_fits_slong_p(Zc[0]) != 0, mpz_fits_ulong_p(Zc[0]) != 0, mpz_fits_si_p(Zc[0]) != 0, mpz_fits_ui_p(Zc[0]) != 0, (unsigned long) u4, mpf_get_si(Fc[0]), mpf_get_ui(Fc[0]), (unsigned long) u6, mpf_fits_sint_p(Fc[0]) != 0, mpf_fits_uint_p(Fc[0]) != 0,
+      mpf_fits_sshort_p(Fc[0]) != 0, mpf_fits_ushort_p(Fc[0]) != 0, mpf_fits_slong_p(Fc[0]) != 0, mpf_fits_ulong_p(Fc[0]) != 0, mpf_fits_si_p(Fc[0]) != 0, mpf_fits_ui_p(Fc[0]) != 0);
+    outs("cref", k, b);
+  }
+  sid++;
+}
+'''
+
+def io_program(rng, tier, only=None):
+    """C++ source of the I/O program; every case prints desc/cxx/cref lines with ids from IO_BASE on"""
+    thorough = tier == "thorough"
+    nvs = 6 if thorough else 4
+    dummy = Stmt("sgn", a=Var("z", 0))
+    vss = valsets(rng, dummy, nvs)
+    vss[0].z[0] = 0; vss[0].q[0] = (0, 1); vss[0].f[0] = (0, 0, 64)
+    vss[1].z[0] = -255; vss[1].q[0] = (-255, 16); vss[1].f[0] = (-255, -4, 64)
+    vss[2].z[0] = (1 << 70) + 12345; vss[2].q[0] = (8, 1); vss[2].f[0] = (12345, 70, 128)
+    rows = []
+    for vs in vss:
+        zs, qs, fm, fe, fp, si, ui, d = vs_init(vs)
+        rows.append("  { {%s}, {%s}, {%s}, {%s}, {%s}, {0,0,0,0}, {0,0,0,0}, {0,0,0,0} }" % (zs, qs, fm, fe, fp))
+    # strings for constructors / set_str
+    strs = [("0", 0), ("123", 0), ("-123", 0), ("0x1F", 0), ("0X1f", 0), ("0b101", 0), ("017", 0), ("  42", 0), ("4 2", 10), ("", 0), ("-", 0), ("12a", 10), ("zz", 36), ("ZZ", 36), ("Zz", 62),
+            ("ff", 16), ("-FF", 16), ("0xff", 16), ("123456789012345678901234567890", 10), ("1/2", 0), ("-3/6", 0), ("0x10/0x3", 0), ("1/0", 0), ("1/", 0), ("/2", 0), ("3/4", 10), ("7/-2", 10),
+            ("1.5", 0), ("1e3", 0), ("-1.25e-2", 10), ("1@3", 10), ("abc", 10), ("+5", 10), ("101", 2), ("102", 2), ("77", 8), ("78", 8), ("1_000", 10), ("0.1", 10), (".5", 10), ("5.", 10), ("1e", 10)]
+    if thorough:
+        for _ in range(60):
+            b = rng.choice([0, 2, 8, 10, 16, 36, 62, 7]); v = rand_z(rng)
+            digs = "0123456789abcdefghijklmnopqrstuvwxyz"
+            def tob(n, b):
+                b = b or 10; s = ""; n0 = abs(n)
+                while True:
+                    s = (digs[n0 % b] if b <= 36 else (digs.upper() + digs[10:])[n0 % b] if False else "0123456789ABCDEFGHIJKLMNOPQRSTUVWXYZabcdefghijklmnopqrstuvwxyz"[n0 % b] if b > 36 else digs[n0 % b]) + s; n0 //= b
+                    if not n0: break
+                return ("-" if n < 0 else "") + s
+            strs.append((tob(v, b), b))
+    def cstr(x): return '"' + "".join(c if 32 <= ord(c) < 127 and c not in '"\\' else "\\%03o" % ord(c) for c in x) + '"'
+    strtab = ",\n".join("  { %s, %d }" % (cstr(s), b) for s, b in strs)
+    # numbers
+    nums = []
+    for ct in SI_T + UI_T:
+        lo, hi = RANGE[ct]
+        for v in sorted({lo, hi, 0, 1, min(hi, 100), max(lo, -1), rng.randrange(lo, hi + 1)}):
+            lit = ("(-%dL - 1)" % (-(v + 1)) if v < 0 else "%dUL" % v if ct.startswith("unsigned") else "%dL" % v)
+            nums.append('  num_case<%s>("%s", (%s) %s, "%d");' % (ct, ct, ct, lit, v))
+    for ct, vals in (("double", D_SPECIAL + [1e300, -1e-300, 5e-324]), ("float", [v for v in D_SPECIAL if fbits_ok(v)])):
+        for v in vals:
+            nums.append('  num_case<%s>("%s", (%s) bits2d(0x%xULL), "%r");' % (ct, ct, ct, dbits(v), v))
+    # istream inputs: (text, basefield, skipws) -> token, denominator token, fail, next char
+    ins = []
+    def scan(text, base, skipws, q=False):
+        i = 0
+        if skipws:
+            while i < len(text) and text[i] in " \t\n": i += 1
+        def number(i):
+            tok = ""
+            if i < len(text) and text[i] in "+-":
+                if text[i] == "-": tok = "-"
+                i += 1
+            b = base; zero = False
+            if base == 0:
+                if i < len(text) and text[i] == "0":
+                    i += 1
+                    if i < len(text) and text[i] in "xX": b = 16; i += 1
+                    else: b = 8; zero = True
+                else: b = 10
+            digs = {10: "0123456789", 8: "01234567", 16: "0123456789abcdefABCDEF"}[b]
+            j = i
+            while j < len(text) and text[j] in digs: j += 1
+            ok = j > i
+            if ok: return tok + text[i:j], b, j, False
+            if zero: return "0", b, j, False
+            return None, b, j, True
+        tok, b, j, fail = number(i)
+        if fail: return None, None, 1, -1, base
+        dtok = None
+        if q and j < len(text) and text[j] == "/":
+            dtok, b2, j2, fail2 = number(j + 1)
+            if fail2: return None, None, 1, -1, base
+            j = j2
+            # the C-level reference reads each part with its own detected base
+            return (tok, b), (dtok, b2), 0, (ord(text[j]) if j < len(text) else -1), base
+        return (tok, b), None, 0, (ord(text[j]) if j < len(text) else -1), base
+    texts = ["0", "123", "-45 rest", "  77,", "+9", "0x1f;", "0X1F", "017", "08", "ff", "FF)", "-ff", "abc", "", " ", "-", "12/34", "-6/8 x", "0x10/0x3", "1/", "12 /3", "9999999999999999999999999/3", "\t\n5", "1.5", "00", "0 7", "-0", "0xg", "7/0"]
+    if thorough:
+        for _ in range(80):
+            v = rand_z(rng); b = rng.choice([10, 16, 8]); s = ("%d" if b == 10 else "%x" if b == 16 else "%o") % abs(v)
+            texts.append(rng.choice(["", " ", "  "]) + ("-" if v < 0 else "") + rng.choice(["", "", "0x" if b == 16 else "0" if b == 8 else ""]) + s + rng.choice(["", " ", ",", "/3", "/0x11", "z"]))
+    rows_in = []
+    for text in texts:
+        for base in (0, 10, 16, 8):
+            for skipws in (1, 0):
+                for q in (False, True):
+                    t, dt, fail, nxt, _ = scan(text, base, skipws, q)
+                    if not q and "/" in text and not fail and False: pass
+                    # token bases: pass mpz_set_str the base the grammar selected (prefix already consumed)
+                    if fail: rows_in.append((text, base, skipws, "", None, 1, -1, q, 0, 0))
+                    else: rows_in.append((text, base, skipws, t[0], dt[0] if dt else None, 0, nxt, q, t[1], dt[1] if dt else 0))
+    # the InCase table carries one base; split rows whose numerator/denominator bases differ by giving the reference explicit bases
+    intab = []
+    for text, base, skipws, tok, dtok, fail, nxt, q, tb, db in rows_in:
+        if q and dtok is None and not fail and "/" not in text: kind = "both"
+        intab.append((text, base, skipws, tok, dtok, fail, nxt, q, tb, db))
+    L = ['#include "cxxh.h"', "#include <limits>", "#define IO_BASE_ID %d" % IO_BASE, IO_CODE]
+    L.append("static const VS io_vs[] = {\n%s\n};" % ",\n".join(rows))
+    L.append("static const StrCase io_str[] = {\n%s\n};" % strtab)
+    # istream rows: mpz rows (q False) and mpq rows (q True) are separate InCase entries; `base` passed to mpz_set_str is the detected one
+    zin = [r for r in intab if not r[7]]; qin = [r for r in intab if r[7]]
+    def inrow(r):
+        text, base, skipws, tok, dtok, fail, nxt, q, tb, db = r
+        return "  { %s, %d, %d, %s, %s, %d, %d, %d, %d }" % (cstr(text), base, skipws, cstr(tok), cstr(dtok) if dtok is not None else "0", fail, nxt, tb, db)
+    L.append("struct InRow { const char *text; int base; int skipws; const char *tok; const char *dtok; int fail; int next; int tbase; int dbase; };")
+    L.append("static const InRow io_zin[] = {\n%s\n};" % ",\n".join(inrow(r) for r in zin))
+    L.append("static const InRow io_qin[] = {\n%s\n};" % ",\n".join(inrow(r) for r in qin))
+    L.append(r'''
+static void io_istream2(const InRow *ic, int n, int ty) {
+  for (int i = 0; i < n; i++) {
+    const InRow &c = ic[i];
+    desc(std::string(ty == 0 ? "is >> Z[0]" : "is >> Q[0]") + "; input \"" + c.text + "\" basefield=" + std::to_string(c.base) + " skipws=" + std::to_string(c.skipws));
+    if (want()) {
+      std::istringstream is(c.text); is.setf(c.base == 16 ? std::ios::hex : c.base == 8 ? std::ios::oct : c.base == 10 ? std::ios::dec : std::ios::fmtflags(0), std::ios::basefield);
+      if (!c.skipws) is.unsetf(std::ios::skipws);
+      mpz_set_si(Z[0].get_mpz_t(), 99); mpq_set_si(Q[0].get_mpq_t(), 99, 7);
+      if (ty == 0) is >> Z[0]; else is >> Q[0];
+      int fail = is.fail(); int nx = -1; if (!fail) { is.clear(); nx = is.get(); }
+      std::string r = "fail=" + std::to_string(fail) + " next=" + std::to_string(nx) + " ";
+      if (!fail) r += ty == 0 ? zhex(Z[0].get_mpz_t()) : qhex(Q[0].get_mpq_t());
+      outs("cxx", 0, r);
+      std::string e = "fail=" + std::to_string(c.fail) + " next=" + std::to_string(c.fail ? -1 : c.next) + " ";
+      if (!c.fail) {
+        if (mpz_set_str(TZ[0], c.tok, c.tbase) != 0) e += "<mpz_set_str rejects the token>";
+        if (ty == 0) e += zhex(TZ[0]);
+        else { if (c.dtok) { if (mpz_set_str(TZ[1], c.dtok, c.dbase) != 0) e += "<mpz_set_str rejects the token>"; } else mpz_set_ui(TZ[1], 1); e += zhex(TZ[0]) + " " + zhex(TZ[1]); }
+      }
+      outs("cref", 0, e);
+    }
+    sid++;
+  }
+}''')
+    L.append("int main(int argc, char **argv) {\n  init_all(); if (argc > 1) only = atol(argv[1]);")
+    L.append("  io_ostream(io_vs, %d, %d);\n  io_ostream_f(io_vs, %d);\n  io_getstr(io_vs, %d);\n  io_strings(io_str, %d);\n  io_conv(io_vs, %d);" % (nvs, 1 if thorough else 0, nvs, nvs, len(strs), nvs))
+    L += nums
+    L.append("  io_istream2(io_zin, %d, 0);\n  io_istream2(io_qin, %d, 1);" % (len(zin), len(qin)))
+    L.append("  return 0;\n}")
+    return "\n".join(L) + "\n"
+
+# ---------------------------------------------------------------- corpus (always-run regression statements)
+def parse_corpus_line(line):
+    """`O0|O2 | stmt in prefix syntax, built-ins as i:long u:unsigned_long d:double (suffix ! = literal) | z0 z1 z2 z3 | q0 q1 q2 (n/d) | b0 b1 …` (hex)
+    -> (opt, Stmt, VS)"""
+    parts = [p.strip() for p in line.split("|")]
+    opt, src, zs, qs = parts[0], parts[1].split(), parts[2].split(), parts[3].split()
+    bs = parts[4].split() if len(parts) > 4 else []
+    hexv = lambda t: -int(t[1:], 16) if t.startswith("-") else int(t, 16)
+    bvals = [hexv(b) for b in bs]
+    pos = [0]; nb = [0]
+    def tok():
+        t = src[pos[0]]; pos[0] += 1; return t
+    def bi(t):
+        k, ct = t.split(":"); lit = ct.endswith("!"); ct = ct.rstrip("!").replace("_", " ")
+        v = bvals[nb[0]]; nb[0] += 1
+        if k == "d": v = struct.unpack("<d", struct.pack("<Q", v))[0]
+        b = Bi(ct, v if lit else None); b.value = v
+        return b
+    def opnd():
+        t = src[pos[0]]
+        if ":" in t: pos[0] += 1; return bi(t)
+        return tree()
+    def tree():
+        t = tok()
+        if re.fullmatch(r"[zqf]\d", t): return Var(t[0], int(t[1]))
+        if t in ZUN + FUN: return Un(t, tree())
+        if t in ZBIN: a = opnd(); b = opnd(); return Bin(t, a, b)
+        if t in ("shl", "shr"): a = tree(); n = bi(tok()); return Sh(t, a, n)
+        raise ValueError("corpus syntax: " + t)
+    h = tok()
+    if h == "=": ty = tok(); i = int(tok()); st = Stmt("assign", tgt=(ty, i), e=tree(), tags=("corpus",))
+    elif h == "new": ty = tok(); st = Stmt("init", ty=ty, e=tree(), tags=("corpus",))
+    elif h == "op=": op = tok(); ty = tok(); i = int(tok()); st = Stmt("compound", op=op, tgt=(ty, i), r=opnd(), tags=("corpus",))
+    elif h == "cmp": op = tok(); a = opnd(); b = opnd(); st = Stmt("cmp", op=op, a=a, b=b, tags=("corpus",))
+    elif h == "sgn": st = Stmt("sgn", a=tree(), tags=("corpus",))
+    else: raise ValueError("corpus syntax: " + h)
+    if opt == "O2": st.tags.add("const")
+    z = [hexv(t) for t in zs]; q = []
+    for t in qs: n, d = t.split("/"); q.append((hexv(n), hexv(d)))
+    vs = VS(z, q, [(0, 0, 64)] * NF, [b.value for b in st.builtins()])
+    return opt, st, vs
+
+def corpus_cases(directory):
+    out = []
+    if not os.path.isdir(directory): return out
+    for f in sorted(os.listdir(directory)):
+        if not f.endswith(".txt"): continue
+        for ln in open(os.path.join(directory, f)):
+            ln = ln.strip()
+            if not ln or ln.startswith("#"): continue
+            out.append(parse_corpus_line(ln))
+    return out
